@@ -83,6 +83,8 @@ pub struct State {
     pub(crate) inline_modules: FnvMap<String, Arc<Cow<'static, str>>>,
     pub(crate) index_map: FnvMap<String, BytePos>,
     extern_globals: FnvSet<String>,
+    // Modules whose text were queried while they were missing from `inline_modules`
+    queried_missing_modules: FnvSet<String>,
 }
 
 impl State {
@@ -212,6 +214,13 @@ impl crate::query::CompilationBase for CompilerDatabase {
             }
             hash_map::Entry::Vacant(entry) => {
                 entry.insert(Arc::new(Cow::Owned(contents.into())));
+                // If an importer already asked for this module the (lack of) text it saw were
+                // memoized
+                if state.queried_missing_modules.remove(&module) {
+                    ModuleTextQuery
+                        .in_db_mut(self as &mut dyn Compilation)
+                        .invalidate(&module);
+                }
             }
         }
         state.add_filemap(&module, &contents[..]);
@@ -533,7 +542,14 @@ fn module_text(db: &dyn Compilation, module: String) -> StdResult<Arc<Cow<'stati
     db.salsa_runtime()
         .report_synthetic_read(salsa::Durability::LOW);
 
-    let opt = { db.compiler().state().inline_modules.get(&module).cloned() };
+    let opt = {
+        let mut state = db.compiler().state();
+        let opt = state.inline_modules.get(&module).cloned();
+        if opt.is_none() {
+            state.queried_missing_modules.insert(module.clone());
+        }
+        opt
+    };
     let contents = if let Some(contents) = opt {
         contents
     } else {
